@@ -460,6 +460,39 @@ def reach_under (repo, module, g, env, cls=None, start=None, exc=False, local_de
       if m not in seen: seen.add(m); st.append(m)
   return seen
 
+def final_stores_under (repo, module, g, env, keyof, cls=None):
+  """among the nodes reachable under `env` (as reach_under), those for which keyof(node) gives a key and from which the exit
+  can be reached along env-feasible edges without passing another node of the same key: the stores whose value survives.
+  Returns {node: key}"""
+  def fsucc (n):
+    succ = n.succ
+    if n.kind == 'cond':
+      try: v = bool(eval_env2(repo, module, n.ast, env, cls))
+      except Exception: v = None
+      if v is not None: succ = [(m, l) for m, l in n.succ if l == v]
+    return [m for m, l in succ if l != 'exc']
+  seen = set([g.entry]); st = [g.entry]
+  while st:
+    n = st.pop()
+    for m in fsucc(n):
+      if m not in seen: seen.add(m); st.append(m)
+  keys = {}
+  for n in seen:
+    k = keyof(n)
+    if k is not None: keys[n] = k
+  out = {}
+  for n, k in keys.items():
+    vis = set(); st = list(fsucc(n)); hit = False
+    while st and not hit:
+      m = st.pop()
+      if m in vis: continue
+      vis.add(m)
+      if m is g.exit: hit = True; break
+      if keys.get(m) == k: continue
+      st.extend(fsucc(m))
+    if hit: out[n] = k
+  return out
+
 # ---------------------------------------------------------------------------
 # constant propagation along enumerated paths
 
@@ -737,6 +770,28 @@ def paths_under (repo, module, g, env, start, stops, cls=None, limit=200, track=
             if k2_ != nm_ and v2_ is cur_: ne.exact.pop(k2_, None)
           if '.' in nm_: ne.exact.pop(nm_, None)
           else: _kill(ne, nm_)
+    elif track and n.kind == 'stmt' and ((isinstance(n.ast, ast.Delete) and len(n.ast.targets) == 1 and isinstance(n.ast.targets[0], ast.Subscript) and not isinstance(n.ast.targets[0].slice, ast.Slice)
+                                          and isinstance(e.exact.get(norm(n.ast.targets[0].value)), (dict, list)))
+                                         or (isinstance(n.ast, ast.Expr) and isinstance(n.ast.value, ast.Call) and isinstance(n.ast.value.func, ast.Attribute) and n.ast.value.func.attr == 'pop'
+                                             and 1 <= len(n.ast.value.args) <= 2 and isinstance(e.exact.get(norm(n.ast.value.func.value)), dict))):
+      # removal of one element from a container of known value: `del D[k]`, `D.pop(k)`, `D.pop(k, default)`
+      isdel = isinstance(n.ast, ast.Delete)
+      bexp = n.ast.targets[0].value if isdel else n.ast.value.func.value
+      kexp = n.ast.targets[0].slice if isdel else n.ast.value.args[0]
+      nm_ = norm(bexp); cur_ = e.exact[nm_]
+      ne = Env(dict(e.exact), list(e.matchers), getattr(e, 'call_hook', None))
+      try:
+        k_ = eval_env2(repo, module, kexp, e, cls)
+        if k_ is OPAQUE: raise _Unknown()
+        c2 = dict(cur_) if isinstance(cur_, dict) else list(cur_)
+        if isdel or len(n.ast.value.args) == 1: del c2[k_]
+        else: c2.pop(k_, None)
+        ne.exact[nm_] = c2
+        for k2_, v2_ in list(ne.exact.items()):
+          if k2_ != nm_ and v2_ is cur_: ne.exact[k2_] = c2
+      except Exception:
+        for k2_, v2_ in list(ne.exact.items()):
+          if v2_ is cur_: ne.exact.pop(k2_, None)
     if track and ne is e and n.kind == 'stmt' and isinstance(n.ast, ast.Expr) and isinstance(n.ast.value, ast.Call) and getattr(e, 'call_hook', None) is not None \
        and getattr(e.call_hook, 'wants_env', False) and getattr(e.call_hook, 'effects', False):
       # a call statement: a hook that models effects (declared with .effects = True) gets to apply them to this path's environment
@@ -788,15 +843,31 @@ def _assign_env (repo, module, st, env, cls):
     except Exception: known = False
     _kill(ne, nm)
     if known: ne.exact[nm] = val
+    elif isinstance(st.value, ast.Call) and st.value.keywords:
+      # x = Cls(a=v, ...) where Cls.__init__ copies its keyword arguments to attributes of the same name (initHelper): x.a is v
+      fields = kw_ctor_fields(repo, module, st.value)
+      for k_ in st.value.keywords:
+        if k_.arg is None or k_.arg not in fields: continue
+        try:
+          v_ = eval_env2(repo, module, k_.value, env, cls)
+          if v_ is not OPAQUE: ne.exact['%s.%s' % (nm, k_.arg)] = v_
+        except Exception: pass
     return ne
   if isinstance(st, ast.Assign) and len(st.targets) == 1 and isinstance(st.targets[0], (ast.Tuple, ast.List)) and \
-     all(isinstance(x, ast.Name) for x in st.targets[0].elts):
+     all(isinstance(x, ast.Name) or (isinstance(x, ast.Attribute) and isinstance(x.value, ast.Name)) for x in st.targets[0].elts):
     try:
       val = eval_env2(repo, module, st.value, env, cls)
       val = list(val)
       if len(val) == len(st.targets[0].elts):
         for x, v in zip(st.targets[0].elts, val):
-          _kill(ne, x.id); ne.exact[x.id] = v
+          if isinstance(x, ast.Name):
+            _kill(ne, x.id)
+            if v is not OPAQUE: ne.exact[x.id] = v
+          else:
+            key = norm(x)
+            for k in list(ne.exact):
+              if key in k: del ne.exact[k]
+            if v is not OPAQUE: ne.exact[key] = v
         return ne
     except Exception: pass
   if isinstance(st, ast.Assign) and len(st.targets) == 1 and isinstance(st.targets[0], ast.Attribute) and isinstance(st.targets[0].value, ast.Name):
@@ -870,6 +941,35 @@ def _assign_env (repo, module, st, env, cls):
       elif isinstance(tt, ast.Attribute): ne.exact.pop(norm(tt), None)
       elif isinstance(tt, ast.Subscript): ne.exact.pop(norm(tt.value), None)
   return ne
+
+def kw_ctor_fields (repo, module, call):
+  """keyword names of `call` that end up as plain attributes of the constructed object: the callee is a repo class whose
+  __init__ takes **kw and hands it to initHelper / init_helper, and the class has no property / method of that name"""
+  try: c = module.resolve_expr(call.func)
+  except Exception: return set()
+  from .model import Cls
+  if not isinstance(c, Cls): return set()
+  init = c.find_method('__init__')
+  if init is None or init.node.args.kwarg is None: return set()
+  kwn = init.node.args.kwarg.arg
+  def copies (fn, kname, depth=0):
+    for x in calls_in(fn):
+      if call_name(x) in ('initHelper', 'init_helper') and len(x.args) == 2 and norm(x.args[1]) == kname: return True
+      # handed on to a method of the object that does it: self._init_helper(kw)
+      if depth < 2 and isinstance(x.func, ast.Attribute) and isinstance(x.func.value, ast.Name) and x.func.value.id == 'self' and any(norm(a) == kname for a in x.args):
+        m = c.find_method(x.func.attr)
+        if m is not None:
+          i_ = [norm(a) for a in x.args].index(kname)
+          ps = [a.arg for a in m.node.args.args][1:]
+          if i_ < len(ps) and copies(m.node, ps[i_], depth + 1): return True
+    return False
+  if not copies(init.node, kwn): return set()
+  out = set()
+  for k_ in call.keywords:
+    if k_.arg is None: continue
+    if any(k_.arg in k.methods or any(isinstance(b_, (ast.FunctionDef, ast.AsyncFunctionDef)) and b_.name == k_.arg for b_ in k.node.body) for k in c.mro()): continue
+    out.add(k_.arg)
+  return out
 
 def _kill (env, nm):
   """drop bindings whose expression reads the *variable* nm (not an attribute
@@ -1220,6 +1320,70 @@ def stale_derived_state (repo, cls, modules):
           if not again: out.append((X, P, ist, (m, f, st)))
   return out
 
+
+_MUTATORS = ('add', 'append', 'extend', 'update', 'insert', 'pop', 'popitem', 'remove', 'discard', 'clear', 'setdefault', 'sort', 'reverse', 'difference_update', 'intersection_update', 'appendleft')
+def mutated_defaults (repo, module, func, cls=None):
+  """parameters of `func` whose default is a mutable object built once at definition time ([] / {} / set() / list() / dict())
+  and which the function changes in place on a path that is feasible when the call leaves the parameter at its default (the
+  path is walked with the parameter bound to the empty default value): [(parameter, CFG node of the mutation)].
+  The object is shared by all calls, so what one call adds is still there for the next."""
+  a = func.node.args
+  names = [x.arg for x in a.args]; out = []
+  defaults = dict(zip(names[len(names) - len(a.defaults):], a.defaults))
+  for x, d in zip(a.kwonlyargs, a.kw_defaults):
+    if d is not None: defaults[x.arg] = d
+  cand = {}
+  for nm, d in defaults.items():
+    if isinstance(d, ast.List) and not d.elts: cand[nm] = []
+    elif isinstance(d, ast.Dict) and not d.keys: cand[nm] = {}
+    elif isinstance(d, ast.Call) and isinstance(d.func, ast.Name) and d.func.id in ('set', 'list', 'dict') and not d.args and not d.keywords: cand[nm] = {'set': set, 'list': list, 'dict': dict}[d.func.id]()
+  if not cand: return out
+  g = cfg_of(func)
+  for nm, val in cand.items():
+    muts = []
+    for n in g.nodes:
+      if n.ast is None or n.kind in ('def', 'branch', 'join', 'handler'): continue
+      hit = any(isinstance(c.func, ast.Attribute) and c.func.attr in _MUTATORS and isinstance(c.func.value, ast.Name) and c.func.value.id == nm for c in node_calls(n))
+      if n.kind == 'stmt' and isinstance(n.ast, (ast.Assign, ast.AugAssign, ast.Delete)):
+        ts = n.ast.targets if isinstance(n.ast, (ast.Assign, ast.Delete)) else [n.ast.target]
+        if any(isinstance(t, ast.Subscript) and isinstance(t.value, ast.Name) and t.value.id == nm for t in ts): hit = True
+        if isinstance(n.ast, ast.AugAssign) and isinstance(n.ast.target, ast.Name) and n.ast.target.id == nm: hit = True
+      if hit: muts.append(n)
+    if not muts: continue
+    IN, defn = reaching_defs(g, nm)
+    muts = [n for n in muts if g.entry in IN[n]]
+    if not muts: continue
+    env = Env(dict((k, type(v)()) for k, v in cand.items()))
+    reach = reach_under_cp(repo, module, g, env, cls)
+    for n in muts:
+      if n in reach: out.append((nm, n))
+  return out
+
+def crossed_arguments (repo, module):
+  """calls in `module` to functions / methods of the same module whose positional arguments are plain names that are *also* the
+  callee's parameter names, but bound crosswise: f(a, b) for def f(b, a).  [(caller Func, call, callee Func, [(arg name, bound to
+  parameter)])].  Only exact two-way swaps are reported: argument i is named like parameter j and argument j like parameter i."""
+  out = []
+  fns = list(module.funcs.values()) + [f for c in module.classes.values() for f in c.methods.values()]
+  for f in fns:
+    for c in calls_in(f.node, nested=True):
+      callee = None; skip = 0
+      if isinstance(c.func, ast.Name):
+        r = module.funcs.get(c.func.id)
+        if r is not None: callee = r
+      elif isinstance(c.func, ast.Attribute) and isinstance(c.func.value, ast.Name) and c.func.value.id == 'self' and f.cls is not None:
+        callee = f.cls.find_method(c.func.attr); skip = 1
+      if callee is None or any(isinstance(a, ast.Starred) for a in c.args): continue
+      if 'staticmethod' in getattr(callee, 'decorators', ()): skip = 0
+      ps = [a.arg for a in callee.node.args.args][skip:]
+      bound = {}
+      for i, a in enumerate(c.args):
+        if i < len(ps) and isinstance(a, ast.Name): bound[ps[i]] = a.id
+      for k in c.keywords:
+        if k.arg is not None and isinstance(k.value, ast.Name): bound[k.arg] = k.value.id
+      pairs = [(p1, p2) for p1 in bound for p2 in bound if p1 < p2 and bound[p1] == p2 and bound[p2] == p1]
+      if pairs: out.append((f, c, callee, [(bound[p1], p1) for p1, p2 in pairs] + [(bound[p2], p2) for p1, p2 in pairs]))
+  return out
 
 def alias_of (fnode, e, attr_text):
   """is expression e the attribute `attr_text` (e.g. 'self._calls') or a local whose every definition in the function is a plain
